@@ -18,7 +18,7 @@ import (
 // Step is one operation of a history together with the world the node must be in afterwards
 // when nothing fails.
 type Step struct {
-	Op      string // store | rejected | revert | l1head | snap | restart | kill | prune
+	Op      string // store | finalise | rejected | revert | l1head | snap | restart | kill | prune
 	B       *lib.Bundle
 	L1      *core.L1Head
 	PruneTo uint64
@@ -38,6 +38,8 @@ func (s *Step) String() string {
 	switch s.Op {
 	case "store":
 		return fmt.Sprintf("store(%d)", s.B.Block.Number)
+	case "finalise":
+		return fmt.Sprintf("finalise(%d)", s.B.Block.Number)
 	case "rejected":
 		return fmt.Sprintf("rejected(%d)", s.B.Block.Number)
 	case "l1head":
@@ -115,6 +117,21 @@ func (n *Node) exec(s *Step) error {
 		switch s.Op {
 		case "store":
 			return lib.StoreOn(n.bc, s.B)
+		case "finalise":
+			// the sequencer's path: Finalise recomputes roots, commitments and hash and appends
+			// the block in one batch (no succession check); it must reproduce the bundle
+			c := s.B.Clone()
+			if num := c.Block.Number; num > 0 {
+				// as the chain generator does: the state to start from is the parent's root
+				c.SU.OldRoot = s.After.Chain[num-1].Block.GlobalStateRoot
+			}
+			if err := n.bc.Finalise(c.Block, c.SU, c.Classes, nil); err != nil {
+				return err
+			}
+			if !c.Block.Hash.Equal(s.B.Block.Hash) {
+				return fmt.Errorf("Finalise produced block hash %s, the source node %s", c.Block.Hash.String(), s.B.Block.Hash.String())
+			}
+			return nil
 		case "rejected":
 			// a block that does not extend the head (here: the head offered again) must be refused,
 			// and refusing it must change nothing, on disk or in memory
@@ -191,6 +208,8 @@ type builder struct {
 	sc  *Scenario
 	l1  *core.L1Head
 	flr uint64
+	// children of heads that were reverted since, by number: right number, wrong parent
+	orphans map[uint64]*lib.Bundle
 }
 
 func eventfulSpec(g *lib.ChainGen, r *lib.RNG, version string) *lib.BlockSpec {
@@ -259,7 +278,35 @@ func (b *builder) rejected() {
 	}
 }
 
+// finalise appends the next block through Finalise instead of Store.
+func (b *builder) finalise(spec *lib.BlockSpec) {
+	bd, err := b.g.Next(spec)
+	if err != nil {
+		panic(fmt.Sprintf("generator: %v", err))
+	}
+	b.push(Step{Op: "finalise", B: bd})
+}
+
+// rejectedParent offers a block with the expected number whose parent is a block that has been
+// reverted (if the history has produced one): verifyBlockSuccession must refuse it.
+func (b *builder) rejectedParent() bool {
+	o := b.orphans[uint64(b.g.Height())]
+	if o == nil || b.g.Head() == nil || o.Block.ParentHash.Equal(b.g.Head().Block.Hash) {
+		return false
+	}
+	b.push(Step{Op: "rejected", B: o})
+	return true
+}
+
 func (b *builder) revert() {
+	// the probe of the present world is a child of the head that is about to go
+	if n := len(b.sc.Steps); n > 0 && b.sc.Steps[n-1].After.Probe != nil {
+		if b.orphans == nil {
+			b.orphans = map[uint64]*lib.Bundle{}
+		}
+		p := b.sc.Steps[n-1].After.Probe
+		b.orphans[p.Block.Number] = p
+	}
 	if err := b.g.Revert(); err != nil {
 		panic(fmt.Sprintf("generator: %v", err))
 	}
